@@ -709,6 +709,9 @@ class Evaluator(Run):
         for a in node.args:
             if isinstance(a, ast.Starred):
                 sv = self.ev(a.value, frame)
+                if sv.t.kind == "opaque":
+                    args.append(sv)  # an opaque argument pack is passed on as one value
+                    continue
                 it = self.iter_of(sv, node)
                 if it.concrete is None:
                     args.append(("*", sv))
@@ -719,6 +722,10 @@ class Evaluator(Run):
         kwargs = {}
         for kw in node.keywords:
             if kw.arg is None:
+                kv = self.ev(kw.value, frame)
+                if kv.t.kind == "opaque":
+                    kwargs["__pack__"] = kv  # an opaque keyword pack is passed on as one value
+                    continue
                 raise Unsupported("**kwargs in call")
             kwargs[kw.arg] = self.ev(kw.value, frame)
         return self.call_value(fn, args, kwargs, node, frame)
@@ -1309,6 +1316,14 @@ class Evaluator(Run):
         return
 
     def ex_Assign(self, node, frame):
+        if isinstance(node.value, (ast.Dict, ast.List, ast.Set)) and not getattr(node.value, "elts", getattr(node.value, "keys", None)) \
+                and all(isinstance(t, ast.Attribute) for t in node.targets):
+            # `obj.attr = {}` / `[]` for an attribute the contract does not declare: an untracked container
+            bases = [self.ev(t.value, frame) for t in node.targets]
+            if all(b.t.kind == "obj" and t.attr not in b.t.fields for b, t in zip(bases, node.targets)):
+                for b, t in zip(bases, node.targets):
+                    self.set_field(b, t.attr, fresh(T.Opaque("untracked"), t.attr))
+                return
         if isinstance(node.value, ast.Yield):
             v = self.ex_yield(node.value, frame)
         else:
@@ -1569,7 +1584,10 @@ class Evaluator(Run):
         self.write_check(loc)
         if cell.ty.kind in ("obj", "drec"):
             for k, fv in list(cell.content.items()):
-                if fv.is_const or fv.t.heap:
+                if fv.is_const or fv.t.heap or fv.t.kind == "lref":
+                    continue  # references stay (what they refer to is havoced separately)
+                if fv.t.kind == "nullable":
+                    cell.content[k] = self.ctx.symbolic_value(self, fv.t, fresh_name("%s.%s" % (base, k)))
                     continue
                 cell.content[k] = fresh(fv.t, "%s.%s" % (base, k))
         elif cell.ty.kind == "list" and cell.ty.elem is PENDING:
@@ -1758,8 +1776,13 @@ class Evaluator(Run):
             extra["_seq"] = extra0["_seq"]
         if is_for:
             self.assume(z3.And(idx >= 0, idx <= it.n))
+        cover = is_for and self.feasible(z3.And(idx >= 1, idx < it.n))
         for lbl, src in inv_items:
             self.assume(self.truthy(self.spec_eval_in_frame(src, frame, extra)))
+        if cover and not self.feasible(z3.And(idx >= 1, idx < it.n)):
+            # vacuity guard: the assumed invariant must not rule out every iteration after the first
+            ctx.add_obligation(self, "cover", "%s.reaches-a-second-iteration" % key, z3.BoolVal(False),
+                               clause="the invariant of %s is contradictory for _i >= 1 (a vacuous proof)" % key, line=node.lineno)
         self.loop_frames.append((entry_epoch, locs))
         undefined_after = [n for n in names if frame.owner(n) is None and n not in frame.globals]
         try:
